@@ -38,6 +38,16 @@ Theorem C12_builder_accepted :
 Proof. exact builder_accepted_chain. Qed.
 Print Assumptions C12_builder_accepted.
 
+(* part 4: whole chains produced by honest builders.  Starting from any
+   proposal-free header and letting ProcessYouVersionState derive header after
+   header (as long as it returns no error), every link is accepted by the
+   verifier: the builder never produces a header the network rejects, across
+   proposals, approvals, failed proposals and version switches. *)
+Theorem C12_builder_chain_valid :
+  forall t h n, table_ok t = true -> Clean h -> valid_chain t (build_chain t h n) = true.
+Proof. exact builder_chain_valid. Qed.
+Print Assumptions C12_builder_chain_valid.
+
 (* bridge: the guard holds for every table regenerated from params.Versions *)
 Theorem C12_real_tables_meet_guard : forall t, In t all_tables -> table_ok t = true.
 Proof. exact real_tables_meet_guard. Qed.
@@ -52,6 +62,11 @@ Example C12_nonvacuous_switch :
   valid_chain ex_tbl ex_chain = true /\ cur (mkHdr 8 2 0 0 0 0) <> cur (mkHdr 7 1 2 7 8 2).
 Proof. repeat split; try reflexivity. vm_compute. discriminate. Qed.
 Print Assumptions C12_nonvacuous_switch.
+
+Example C12_nonvacuous_builder_chain :
+  map cur (build_chain ex_tbl (mkHdr 4 1 0 0 0 0) 4) = [1; 1; 1; 1; 2].
+Proof. vm_compute. reflexivity. Qed.
+Print Assumptions C12_nonvacuous_builder_chain.
 
 Example C12_nonvacuous_builder :
   process_vs ex_tbl (mkHdr 4 1 0 0 0 0) = Some (mkHdr 5 1 2 7 8 1) /\
